@@ -201,7 +201,10 @@ def opIssue (req : J) : J :=
   let claims := (jget req "claims").getD .null
   let paths := strs (jarr req "paths")
   let discs := strs (jarr req "discs")
-  let alg := "sha-256"
+  -- the digests are recomputed under the algorithm the real payload declares (the harness passes it on)
+  let alg := match jget req "alg" with
+    | some (.str a) => a
+    | _ => "sha-256"
   let mk (i : Nat) (_ : Option String) (_ : J) : String :=
     match discs[i]? with
     | some d => b64Hash alg d
